@@ -33,7 +33,7 @@ TOKEN = hashlib.sha512(b"c08 token").digest()
 KEY = hashlib.sha256(b"c08 key").digest()
 FRAME = bytes.fromhex("aa21ac8d000000000003418100ff03ff000200000000000000000000000003016971")
 DELAYS = [0.05, 1.0, 1.95, 2.05, 3.0, 3.95, 4.05, 6.5]
-FAULTS = ["drop", "drop_hs", "error", "error_hs", "garbage", "close", "reset", "idle_reset", "refuse", "hang",
+FAULTS = ["drop", "drop_hs", "error", "error_hs", "garbage", "close", "reset", "idle_reset", "refuse", "hang", "cancel:connect",
           "cancel:hs_wait", "cancel:hs_pause", "cancel:data_wait", "cancel:retransmit"]
 
 
@@ -102,6 +102,10 @@ def check_retry(case: dict):
             await lan.authenticate(TOKEN, KEY)
         else:
             await lan._connect()
+        if case.get("idle_before"):
+            # the connection has carried an answered exchange and then sat idle for a while (nothing about the budget changes)
+            await lan.send(FRAME)
+            await asyncio.sleep(case["idle_before"])
         dev.on_data = on_data
         t0 = loop.time()
         n0 = len(dev.transmissions)
@@ -354,6 +358,13 @@ def check_faults(case: dict):
                     offs = {"hs_wait": 0.02, "hs_pause": 0.5, "data_wait": 1.07, "retransmit": 1.05 + 2.5}
                 else:
                     offs = {"hs_wait": 0.02, "hs_pause": 0.02, "data_wait": 0.02, "retransmit": 2.5}
+                offs["connect"] = 1.0
+                if phase == "connect":
+                    # the caller gives up while the TCP connect is still hanging (the connection went away before)
+                    for c in dev.conns:
+                        c.close()
+                    await asyncio.sleep(0.01)
+                    dev.connect_script.append("hang")
                 task = asyncio.ensure_future(exchange())
                 await asyncio.sleep(offs[phase] + case.get("cancel_jitter", 0.0))
                 task.cancel()
@@ -534,6 +545,8 @@ def run(ctx) -> None:
                     case["lifetime"] = [2, 3, 4, 6][(n // 4) % 4]
                 if version == 3 and n % 4 == 3 and None in pattern:
                     case["junk"] = ["00", "5a5a0111", "0011223344556677", "83", "ff" * 40][(n // 4) % 5]
+                if n % 4 == 2:
+                    case["idle_before"] = [1.0, 35.0, 95.0, 700.0][(n // 4) % 4]
                 ctx.check(case, lambda c: _run_one(ctx, c))
                 if r == 3 and (not ctx.quick or n % 4 == 0):
                     for level in ("device", "refresh"):
